@@ -1640,9 +1640,17 @@ public:
       return;
     }
 
-    linear_expression_t e(x);
-    term_id_t tx(build_linexpr(e));
-    rebind_var(y, tx);
+    // y must satisfy whatever x satisfies but y is NOT equal to x (x
+    // can be a summarized variable, e.g., the summary of an array).
+    // Binding y to the term of x would make them equal: bind y to a
+    // fresh term and expand the variable of the term of x in the
+    // underlying domain.
+    term_id_t tx(term_of_var(x));
+    dom_var_t vx(domvar_of_term(tx));
+    term_id_t ty(_ttbl.fresh_var());
+    dom_var_t vy(domvar_of_term(ty));
+    _impl.expand(vx, vy);
+    rebind_var(y, ty);
 
     check_terms(__LINE__);
   }
